@@ -15,8 +15,20 @@ LEVEL_TEXT = ("proof + fault enumeration: Coq theorems over the disk-level model
               "sampled: VisitMailboxes returns no error while another operation runs, for every schedule (fix 0012).")
 LEVEL_NOTE = ("The theorems are about Model/FileDisk.v, a hand-written model of pkg/storage/file (fstore.go, mbox.go, fmessage.go); "
               "encoding/gob is a section variable with the round-trip hypothesis only; the file system is modelled as a path map "
-              "with atomic create/rename/unlink/rmdir (POSIX), a process kill (no power loss: written data survives without fsync); "
-              "I/O errors (disk full, EACCES) are not modelled; concurrency is C09's.")
+              "with atomic create/rename/unlink/rmdir (POSIX), a process kill (no power loss: written data survives without fsync). "
+              "CRASH POINTS = every mutating os call on the non-error paths of the three files, one verifhook.Point immediately before each, "
+              "one model step each: AddMessage os.Create(raw) [add.create], io.Copy into the bufio.Writer [add.write], Writer.Flush [add.flush], "
+              "File.Close [add.close]; writeIndex os.Create(index.gob.tmp) [index.create], gob Encode of name+messages [index.write], Flush "
+              "[index.flush], Close [index.close], os.Rename(tmp,index) [index.rename], and for an emptied mailbox os.Remove(index) [index.remove]; "
+              "createDir os.MkdirAll(mailbox dir) [dir.mkdir]; removeDir os.RemoveAll(mailbox dir) [dir.removeall]; removeDirIfEmpty os.Remove(parent) "
+              "[dir.rmdir, twice]; removeMessage os.Remove(raw) [remove.raw]; file.New os.MkdirAll(mail) [new.mkdir, driver case `new`; in the model "
+              "the root always exists]. Reached through: AddMessage (incl. the cap-eviction loop = removeMessage of the oldest while adding, "
+              "emptying the mailbox at cap 1), MarkSeen (index rewrite), RemoveMessage (non-last: index rewrite + raw unlink; last: index unlink, "
+              "RemoveAll, parents level by level), PurgeMessages — the check FAILS when a run has no crash case at one of these (operation, point) "
+              "pairs (evidence: crash_point_coverage). Non-atomic calls additionally crash INSIDE: content writes (any bytes / every truncation "
+              "<= 512), RemoveAll (subsets), MkdirAll (outer part of the chain). NOT crash points: the read-only calls (os.Stat, os.Open, "
+              "Readdirnames) and the four os.Remove(raw) clean-ups of AddMessage that run only after an I/O error — I/O errors (disk full, EACCES) "
+              "are not modelled; concurrency is C09's.")
 TECHNIQUE = "machine-checked proof in Coq + model/code correspondence check"
 DESIGN_REF = "DESIGN.md §4 C11"
 RULE = ("plan: fixed scenarios (add to empty / at cap 1,2,3 / seen / remove one of two / remove last / purge, with sibling mailboxes "
@@ -38,7 +50,20 @@ ASSUMPTIONS = ["no I/O errors during the operation other than the crash itself",
 NOT_PROVED = []
 
 
+_IDX = ["index.create", "index.write", "index.flush", "index.close", "index.rename"]
+_EMPTY = ["index.remove", "dir.removeall", "dir.rmdir"]
+# (operation, site): every mutating os call on the non-error paths of pkg/storage/file, per operation that reaches it
+REQUIRED_CRASH_POINTS = {
+    "add": ["dir.mkdir", "add.create", "add.write", "add.flush", "add.close"] + _IDX + ["remove.raw"] + _EMPTY,   # the last four: cap eviction inside AddMessage
+    "seen": _IDX,
+    "remove": _IDX + ["remove.raw"] + _EMPTY,     # non-last message / last message (directories removed level by level)
+    "purge": _EMPTY,
+}
+
+
 def nontrivial(kind, ins, outs):
+    if kind == "new":
+        return True
     if kind == "crash":
         return any(o.startswith("at=") and o != "at=done" for o in outs)
     if kind == "plan":
@@ -144,6 +169,20 @@ def flow(run):
                     f.write("visit %s %d %d\n" % (key, k, j))
     if core.evaluate(run, visitp, n_corpus=len(cvisit), label="visit") is None:
         return
+    # every mutating os call of every operation must have been a crash point in this run
+    cover = {}
+    for c in open(os.path.join(d, "crash.cases.txt")):
+        kind, ins, outs = core.split_case(c)
+        at = [o[3:] for o in outs if o.startswith("at=")]
+        if not at or at[0] == "done":
+            continue
+        opk = {"a": "add", "s": "seen", "r": "remove", "p": "purge"}.get(ins[3][0], ins[3][0])
+        cover.setdefault(opk, {}).setdefault(at[0], 0)
+        cover[opk][at[0]] += 1
+    missing = [(o, s) for o, ss in REQUIRED_CRASH_POINTS.items() for s in ss if not cover.get(o, {}).get(s)]
+    run.cov.setdefault("extra", {})["crash_point_coverage"] = cover
+    if missing:
+        run.violation("coverage", {"what": "no crash case at these (operation, mutation point) pairs in this run: %s" % missing}, False)
     # count the crash states actually examined (each truncation length is one state)
     total = 0
     for c in open(os.path.join(d, "crash.cases.txt")):
